@@ -282,6 +282,53 @@ func families(tmp string) []hcase {
 		cs = append(cs, hcase{fam: "long-token", text: "$INCLUDE " + strings.Repeat("f", n) + "\n", allowed: true, files: map[string]string{}})
 		cs = append(cs, hcase{fam: "long-token", text: "$GENERATE 1-2 " + strings.Repeat("$", n) + " 5 A 10.0.0.1\n", allowed: false, maxRecs: 65536})
 	}
+	// 8. every way a parser comes to hold an error -- a syntax error of each kind, a lexical one, a $INCLUDE that cannot be
+	// opened (include FS, real file system, a directory), each kind of bad $GENERATE, an error in the k-th generated record --
+	// at the top level, in an included file and in a file included from an included file, with records FOLLOWING the failing
+	// entry in every file: the consumer keeps calling Next (zonegen.Run) and must be handed nothing more, from whichever
+	// place in the parser the error was raised.  At the top level TLC confirms (ill = "bad" / the lexical class) that an
+	// error is due.
+	for _, e := range []struct{ name, text, ill string }{
+		{"rdata", "e 5 A not-an-address", "bad"},
+		{"rdata-extra", "e 5 A 10.0.0.1 10.0.0.2", "bad"},
+		{"type", "e 5 BOGUS x", "bad"},
+		{"ttl", "e 5 5 A 10.0.0.1", "bad"},
+		{"mx-preference", "e 5 MX 70000 m", "bad"},
+		{"ttl-directive", "$TTL x", "bad"},
+		{"origin-directive", "$ORIGIN a..b", "bad"},
+		{"unknown-directive", "$BOGUS 5", "bad"},
+		{"include-garbage", "$INCLUDE e9 sub extra", "bad"},
+		{"include-missing", "$INCLUDE nofile", ""},
+		{"include-missing-origin", "$INCLUDE nofile sub", ""},
+		{"include-directory", "$INCLUDE dir", ""},
+		{"generate-range", "$GENERATE 5-4 h$ 5 A 10.0.0.1", ""},
+		{"generate-nested", "$GENERATE 1-2 $$GENERATE 1-2 a$ 5 A 10.0.0.1", ""},
+		{"generate-modifier", "$GENERATE 1-2 h${0,0,q} 5 A 10.0.0.1", ""},
+		{"generate-kth-record", "$GENERATE 254-257 h$ 5 A 10.0.0.$", ""},
+		{"close", "e 5 A 10.0.0.1 )", "close"},
+		{"quote", "e 5 TXT \"x", "quote"},
+	} {
+		wrap := func(pre, mid, post string) string { return pre + mid + "\n" + post }
+		for d := 0; d <= 2; d++ {
+			files := map[string]string{"dir/x.zone": "q 5 A 10.0.3.1\n", "e9": "n 5 A 10.0.3.2\n"}
+			top := wrap("pre 5 A 10.0.0.1\n", e.text, "after 5 A 10.0.0.9\nlast 5 A 10.0.0.10\n")
+			ill := e.ill
+			if d >= 1 {
+				top = wrap("pre 5 A 10.0.0.1\n", "$INCLUDE e1 sub", "after 5 A 10.0.0.9\nlast 5 A 10.0.0.10\n")
+				files["e1"] = wrap("x1 5 A 10.0.1.1\n", e.text, "y1 5 A 10.0.1.2\nz1 5 A 10.0.1.3\n")
+				ill = ""
+			}
+			if d == 2 {
+				files["e2"] = files["e1"]
+				files["e1"] = wrap("x0 5 A 10.0.2.1\n", "$INCLUDE e2", "y0 5 A 10.0.2.2\n")
+			}
+			cs = append(cs, hcase{fam: fmt.Sprintf("error-then-more:%s:depth%d", e.name, d), text: top, allowed: true, files: files, ill: ill, maxRecs: 65536})
+		}
+	}
+	// ... the same for a $INCLUDE the real file system cannot open (no include FS), absolute and relative
+	for _, t := range []string{"$INCLUDE /nonexistent-verif-zone/none.zone", "$INCLUDE nonexistent-verif-zone-none.zone sub"} {
+		cs = append(cs, hcase{fam: "error-then-more:include-missing-os:depth0", text: "pre 5 A 10.0.0.1\n" + t + "\nafter 5 A 10.0.0.9\nlast 5 A 10.0.0.10\n", allowed: true, files: nil})
+	}
 	return cs
 }
 
@@ -333,9 +380,27 @@ func ioErrors(sum *hx.Summary, w *hx.Writer) {
 		cs = append(cs, ioCase{"include-big", "a 5 A 10.0.0.1\n$INCLUDE big\nafter 5 A 10.0.0.9\n", 0, map[string]int{"big": k}})
 	}
 	cs = append(cs, ioCase{"directory", "a 5 A 10.0.0.1\n$INCLUDE dir\nafter 5 A 10.0.0.9\n", 0, nil})
+	// a TRANSIENT failure: the reader hands out the I/O error once, between two entries, and would go on delivering the
+	// rest if asked again.  An error has occurred all the same: nothing more may come back (where = ...-transient)
+	for k := 0; k < len(top); k++ {
+		if k == 0 || top[k-1] == '\n' {
+			cs = append(cs, ioCase{"top-transient", top, k + 1, nil})
+		}
+	}
+	for k := 0; k < len(inc); k++ {
+		if (k == 0 || inc[k-1] == '\n') && inc[k] != ' ' { // (not the line break inside the parentheses: that is the middle of an entry)
+			cs = append(cs, ioCase{"include-transient", top, 0, map[string]int{"inc": k}})
+		}
+	}
+	for k := 0; k < len(inc2); k++ {
+		if k == 0 || inc2[k-1] == '\n' {
+			cs = append(cs, ioCase{"nested-transient", top, 0, map[string]int{"inc2": k}})
+		}
+	}
 	for _, c := range cs {
 		sum.Evaluations++
-		rc := zg.RunCfg{Origin: "example.", DefTTL: -1, IncAllowed: true, FS: base(), File: "db", NoMem: true, FailTop: c.failTop, FailFS: c.failFS}
+		rc := zg.RunCfg{Origin: "example.", DefTTL: -1, IncAllowed: true, FS: base(), File: "db", NoMem: true, FailTop: c.failTop, FailFS: c.failFS,
+			FailOnce: strings.HasSuffix(c.where, "-transient")}
 		o, timedOut, _ := zg.RunBudget([]byte(c.text), rc, budget)
 		info := map[string]interface{}{"family": "io-error:" + c.where, "text": c.text, "failTop": c.failTop - 1, "failFS": c.failFS}
 		safety("io-error", len(c.text), &o, timedOut, rc, false, sum, info)
@@ -421,6 +486,9 @@ func hostile(out string) {
 		fam := c.fam
 		if strings.Contains(c.text, "$GENERATE") {
 			fam = "generate"
+		}
+		if strings.Contains(c.fam, ":include-directory:") {
+			fam = "io-error" // (reading a directory fails with an I/O error, which is reported as it is: not a ParseError)
 		}
 		safety(fam, len(c.text), &o, timedOut, rc, c.chain, &sum, cs)
 		if timedOut || o.Panic != "" {
